@@ -21,7 +21,8 @@ Tr == Traces[tid]
 Ev == Traces[tid].ev[pos + 1]
 Verd(c, name) == IF c THEN TRUE ELSE PrintT(<<"VERDICT", Traces[tid].id, pos + 1, name>>)
 
-StepCheck ==
+(* all verdicts of the event at hand; evaluated as ONE Boolean expression (see StepCheck) *)
+Verdicts ==
    LET o     == [mode |-> Ev.o.mode, oc |-> Ev.o.oc, a |-> Ev.o.a, b |-> Ev.o.b]
        steps == Ev.st
        m     == Len(steps)
@@ -67,8 +68,11 @@ StepCheck ==
       /\ Verd(Shaped => ValidityLikeDataOK(Fprev.n, Fprev.w, g.n, g.w, d, wl, wr, o), <<"PadOpt_ValidityLikeData", "validity">>)
       /\ Verd(Shaped => MaskLinesIndependentOK(Fprev.n, Fprev.w, g.n, g.w, d, wl, wr, o), <<"PadOpt_LinesIndependent", "validity">>)
       /\ Verd(Shaped => g.w = Fexp.w, <<"PadMask", "validity">>)
-      /\ act' = <<"pad", steps, o>>
-      /\ obs' = [n |-> g.n, den |-> g.den, v |-> g.v, w |-> g.w]
+(* `Verdicts = TRUE` makes TLC evaluate the LET definitions as an expression (cached, once per event) instead of as  *)
+(* an action (TLC re-evaluates LET definitions of an action at every use)                                           *)
+StepCheck == /\ Verdicts = TRUE
+             /\ act' = <<"pad", Ev.st, Ev.o.mode, Ev.o.oc, Ev.o.a, Ev.o.b>>
+             /\ obs' = [n |-> Ev.r.n, den |-> Ev.r.den, v |-> Ev.r.v, w |-> Ev.r.w]
 
 TInit == /\ tid \in 1 .. Len(Traces)
          /\ pos = 0
